@@ -123,6 +123,24 @@ func c17Monitor(args []string) int {
 			rep.Cases++
 			us := m.StringUci()
 			uciSet[us] = true
+			// the same generator object is used for other work between two parses (as the engine does with its
+			// generators): the parsers' answers must not depend on what the object did before
+			switch rng.Intn(6) {
+			case 0:
+				mg.GenerateLegalMoves(p, movegen.GenQuiet)
+			case 1:
+				mg.GenerateLegalMoves(p, movegen.GenNonQuiet)
+			case 2:
+				cp := *p
+				cp.DoMove(m)
+				mg.GenerateLegalMoves(&cp, movegen.GenAll)
+			case 3:
+				cp := *p
+				cp.DoMove(m)
+				mg.ValidateMove(&cp, m)
+				mg.GeneratePseudoLegalMoves(&cp, movegen.GenAll, cp.HasCheck())
+			}
+			rep.Stats["parses_after_other_use_of_the_generator"]++
 			if got := mg.GetMoveFromUci(p, us); got.MoveOf() != m.MoveOf() {
 				rep.Violate("uci-roundtrip", map[string]interface{}{"fen": fen, "move": us}, "parsed back as "+got.StringUci())
 			}
